@@ -354,7 +354,11 @@ def enc_mem(m):
 
 
 def dec_prop(P, n):
-    dt = np.dtype("U8" if P["dtype"] == "str" else P["dtype"])
+    if P["dtype"] == "str":
+        w = max([len(x[1]) for r in P["rows"] for x in r[1]] + [1])
+        dt = np.dtype(f"U{w}")
+    else:
+        dt = np.dtype(P["dtype"])
     if P["varlen"]:
         v = np.empty((n,), dtype=object)
         for i, (sh, lv) in enumerate(P["rows"]):
@@ -362,8 +366,6 @@ def dec_prop(P, n):
     else:
         sh = P["rows"][0][0] if P["rows"] else P.get("elem_shape", [])
         flat = [dec(x) for r in P["rows"] for x in r[1]]
-        if P["dtype"] == "str":
-            dt = np.dtype(f"U{max([len(x) for x in flat] + [1])}")
         v = np.array(flat, dtype=dt).reshape([n, *sh])
     return {"values": v, "missing": None if P["missing"] is None else np.array(P["missing"], dtype=bool)}
 
@@ -738,10 +740,13 @@ SG_SCHEMAS = [
 ]
 
 
-def typed_leaf(rng, dt):
+FINITE = [0.0, -0.0, 1.5, -2.25, 3.0, 0.1, 1e6, -7.0, 2.0 ** -20]
+
+
+def typed_leaf(rng, dt, finite=False):
     d = np.dtype(dt)
     if d.kind == "f":
-        x = rng.choice(FLOATS + [rng.uniform(-100, 100)])
+        x = rng.choice((FINITE if finite else FLOATS) + [rng.uniform(-100, 100)])
         return ["f", f2h(d.type(x))]
     info = np.iinfo(d)
     return ["i", str(rng.choice([info.min, info.max, 0, 1, rng.randint(info.min, info.max)]))]
@@ -754,7 +759,7 @@ def gen_sg(rng, schema=None, nmax=12):
     pool = [0, 1, 2, info.max, info.max - 1, info.max // 2 + 1, 5, 9, 17, 33, 64, 100, 101][: max(n + 3, 3)]
     ids = rng.sample([p for p in dict.fromkeys(pool) if p >= 0], min(n, len(set(pool))))
     axes = ["t", "y", "x"][-ndims:] if rng.random() < 0.7 else ["a0", "b.1", "c 2"][:ndims]
-    nodes = [[str(i), [typed_leaf(rng, pd) for _ in range(ndims)], {k: typed_leaf(rng, dt) for k, dt in na.items()}] for i in ids]
+    nodes = [[str(i), [typed_leaf(rng, pd, finite=True) for _ in range(ndims)], {k: typed_leaf(rng, dt) for k, dt in na.items()}] for i in ids]
     directed = rng.random() < 0.5
     seen, edges = set(), []
     for _ in range(rng.randint(0, 2 * len(ids)) if ids else 0):
@@ -801,7 +806,8 @@ def gen_prop(rng, n, dt=None, allow_missing=True, allow_varlen=True):
 
 def gen_mem(rng, nmax=12, sg_domain=False, valid=True):
     n = rng.choice([0, 1, 2, 3, nmax])
-    id_dtype = rng.choice(["uint64", "uint8", "int64", "uint16", "int8"])
+    sg_schema = rng.choice(SG_SCHEMAS)
+    id_dtype = sg_schema[1] if sg_domain else rng.choice(["uint64", "uint8", "int64", "uint16", "int8"])
     info = np.iinfo(np.dtype(id_dtype))
     pool = list(dict.fromkeys([0, 1, 2, info.max, info.max - 1, 5, 9, 17, 33, 64, 100, 101, 120, 77, 3]))
     pool = [p for p in pool if p <= info.max]
@@ -821,18 +827,17 @@ def gen_mem(rng, nmax=12, sg_domain=False, valid=True):
          "axes": None, "node_props": {}, "edge_props": {}}
     n, e = len(ids), len(edges)
     if sg_domain:
-        ndims = rng.choice([1, 2])
-        pd = rng.choice(["float64", "float64", "int64"])
-        M["axes"] = ["y", "x"][-ndims:]
+        ndims, _nd, pd, na, ea = sg_schema
+        M["axes"] = ["t", "y", "x"][-ndims:]
         for ax in M["axes"]:
-            M["node_props"][ax] = gen_prop(rng, n, pd, allow_missing=False, allow_varlen=False) | {"rows": [[[], [typed_leaf(rng, pd)]] for _ in range(n)], "elem_shape": []}
-        if rng.random() < 0.6:
-            dt = rng.choice(["float32", "int16"])
-            M["node_props"]["score"] = {"dtype": dt, "varlen": False, "missing": None, "elem_shape": [],
-                                        "rows": [[[], [typed_leaf(rng, dt)]] for _ in range(n)]}
-        if rng.random() < 0.6:
-            M["edge_props"]["w"] = {"dtype": "float64", "varlen": False, "missing": None, "elem_shape": [],
-                                    "rows": [[[], [typed_leaf(rng, "float64")]] for _ in range(e)]}
+            M["node_props"][ax] = {"dtype": pd, "varlen": False, "missing": None, "elem_shape": [],
+                                   "rows": [[[], [typed_leaf(rng, pd, finite=True)]] for _ in range(n)]}
+        for k, dt in na.items():
+            M["node_props"][k] = {"dtype": dt, "varlen": False, "missing": None, "elem_shape": [],
+                                  "rows": [[[], [typed_leaf(rng, dt)]] for _ in range(n)]}
+        for k, dt in ea.items():
+            M["edge_props"][k] = {"dtype": dt, "varlen": False, "missing": None, "elem_shape": [],
+                                  "rows": [[[], [typed_leaf(rng, dt)]] for _ in range(e)]}
     else:
         for j in range(rng.randint(0, 3)):
             M["node_props"][f"n{j}"] = gen_prop(rng, n)
@@ -859,3 +864,33 @@ def gen_mem(rng, nmax=12, sg_domain=False, valid=True):
                     P["missing"].append(False)
         M["invalid"] = mode
     return M
+
+
+def _warm_one(schema):
+    """compile (or load from witty's cache) the spatial-graph classes of one schema"""
+    import os
+
+    import spatial_graph as sg
+
+    devnull = os.open(os.devnull, os.O_WRONLY)  # the C++ compiler's warnings
+    os.dup2(devnull, 2)
+    ndims, nd, pd, na, ea = schema
+    nad = dict(na)
+    nad["position"] = f"{pd}[{ndims}]"
+    for directed in (True, False):
+        sg.create_graph(ndims=ndims, node_dtype=nd, node_attr_dtypes=nad, edge_attr_dtypes=dict(ea),
+                        position_attr="position", directed=directed)
+    return True
+
+
+def sg_warm():
+    """spatial-graph generates and compiles C++ per dtype signature (≈12 s each, cached under
+    ~/.cache/witty); build every signature the check uses once, one process per signature, before
+    the parallel map (concurrent builds of the same module race)."""
+    import multiprocessing as mp
+
+    # the empty-graph signature SgBackend.construct uses when there are no nodes
+    extra = [(1, s[1], "float64", s[3], s[4]) for s in SG_SCHEMAS]
+    todo = list(SG_SCHEMAS) + [e for e in extra if e not in SG_SCHEMAS]
+    with mp.get_context("fork").Pool(min(8, len(todo))) as pool:
+        return all(pool.map(_warm_one, todo, chunksize=1))
